@@ -44,7 +44,13 @@ RULE = ("(a) exhaustive: every boolean mask of every shape with H*W <= 6 (quick)
         "as int arrays / lists of lists; sub-size maps as int32 arrays / lists; instances of user SUBCLASSES of Grid2D, OverSamplingUniform, "
         "OverSamplingIterate, Grid2DOverSampled. After every history also: every array a user function returned and the attributes of every "
         "OverSampling* configuration object / OverSamplerIterate must be unchanged. Integer-valued functions on non-dyadic geometry are skipped "
-        "(and counted) when a sub-pixel centre lies within 1e-6 of a jump. distinct = distinct JSON input.")
+        "(and counted) when a sub-pixel centre lies within 1e-6 of a jump. (g) HELD points: @over_sample on Grid2DOverSampled(grid=held, over_sampler) with "
+        "held = the sampler's uniform sub-centres displaced by a dyadic deflection field / a smooth linear map / a constant shift / in one pixel only, permuted "
+        "within each pixel, reversed, or arbitrary points (as Grid2DIrregular, arithmetic result on the sampler's own grid, ndarray, list, user subclass), "
+        "int- and map-constructed samplers, 1x1 masks, as steps of the one-sampler histories and shared sequences (several different held grids through one "
+        "sampler), tolerance stream; @over_sample on Grid2D objects whose values are not the pixel centres of their mask (sub-size 1 / all-ones map / map / "
+        "iterate). The held points must be unchanged after the call; in 30% of the cases the user then edits held points IN PLACE and calls the same profile "
+        "with the SAME Grid2DOverSampled again (second result = the model on the edited points, first result unchanged). distinct = distinct JSON input.")
 EXHAUSTIVE = {
     "quick": "all boolean masks of all shapes with H*W <= 6 (394 masks): over-sampled grid at uniform sub-size 1 and 2 (and 4 for every third mask); "
              "slim_for_sub_slim and binning of distinct integers at one of these sub-sizes per mask (rotating)",
@@ -388,10 +394,15 @@ def shifted_values(rng, m, ps, og):
     return [[fs(y), fs(x)] for y, x in displaced(rng, cs, rng.choice(["deflect", "deflect", "smooth", "shift", "arb", "rev"]))]
 HELD_CONT = ["irr", "irr", "arith", "arith", "nd", "irr_sub", "list"]
 def rand_held(rng, m, ps, og, ss, exact=True, hk=None):
+    if not exact and hk is None: hk = rng.choice([k for k in HELD_KINDS if k != "smooth"])      # absolute tolerance 1e-9: keep |coordinates| small
     pts, hk = held_points(rng, m, ps, og, ss, hk)
     return {"op": "held", "m": m, "ps": ps, "og": og, "ss": ss, "pts": pts, "hk": hk,
             "f": maybe_scaled(rng, rand_fun(rng, m, ps, og)) if exact else rand_fun(rng, p_int=0.0),
-            "cont": rng.choice(HELD_CONT) if exact else rng.choice(["irr", "nd"]), "read_first": rng.random() < 0.4, "cls_sub": rng.random() < 0.15}
+            "cont": rng.choice(HELD_CONT) if exact else rng.choice(["irr", "nd"]), "read_first": rng.random() < 0.4, "cls_sub": rng.random() < 0.15,
+            "again": rand_again(rng) if exact and rng.random() < 0.3 else None}
+def rand_again(rng):
+    """in-place edits of the held points between two calls with the SAME Grid2DOverSampled: (index, dy, dx)"""
+    return [[rng.randrange(1024), fs(F(rng.randint(-16, 16), 8)), fs(F(rng.choice([-8, -1, 1, 4, 24]), 8))] for _ in range(rng.choice([1, 1, 2, 5]))]
 def rand_steps(rng):
     n = rng.choice([1, 2, 2, 3, 3, 4])
     if rng.random() < 0.6:
@@ -587,7 +598,8 @@ def gen_inputs(tier, rng):
             elif r < 0.68: st.append({"do": "native"})
             elif r < 0.78:
                 pts, hk = held_points(rng, m, ps, og, cur)
-                st.append({"do": "held", "pts": pts, "hk": hk, "f": maybe_scaled(rng, rand_fun(rng, m, ps, og)), "cont": rng.choice(HELD_CONT), "cls_sub": rng.random() < 0.15})
+                st.append({"do": "held", "pts": pts, "hk": hk, "f": maybe_scaled(rng, rand_fun(rng, m, ps, og)), "cont": rng.choice(HELD_CONT), "cls_sub": rng.random() < 0.15,
+                           "again": rand_again(rng) if rng.random() < 0.3 else None})
             elif r < 0.85: st.append({"do": "areas"})
             else: st.append(binstep())
         yield {"op": "hsampler", "m": m, "ps": ps, "og": og, "ss": ss, "int": as_int, "fl": (not as_int) and rng.random() < 0.3,
@@ -897,11 +909,24 @@ def call_held(ctx, smp, st, n, ex):
     ctx.watches.append(("held", held, lambda o: None if qqlist(o) == ptsq else "the points held by the Grid2DOverSampled"))
     god = oversampled_cls(bool(st.get("cls_sub")))(grid=held, over_sampler=smp, pixels_in_mask=n)
     fn = np_ufun(st["f"])
-    r = Profile(fn).image_2d_from(god)
+    prof = Profile(fn)
+    r = prof.image_2d_from(god)
     try: same = qqlist(god.grid) == ptsq and god.over_sampler is smp and god.pixels_in_mask == n
     except Exception: same = False
     if not same: ctx.watches.append(("god", None, lambda o: "the Grid2DOverSampled no longer holds the points / over sampler it was built with"))
-    return r, ptsq
+    ag = st.get("again")
+    if ag and cont in ("irr", "nd", "irr_sub") and len(ptsq):
+        # read -> the user edits the held points IN PLACE (god.grid[i] = ...) -> the SAME profile called again with the SAME Grid2DOverSampled
+        ctx.watches[:] = [w for w in ctx.watches if not (w[0] == "held" and w[1] is held)]      # the held points are now edited on purpose
+        snap1 = qlist(r)
+        for i, dy, dx in ag:
+            i = i % len(ptsq); held[i] = (float(held[i][0]) + float(F(dy)), float(held[i][1]) + float(F(dx)))
+        ptsq2 = qqlist(held)
+        r2 = prof.image_2d_from(god)
+        if qlist(r) != snap1: ctx.watches.append(("r", None, lambda o: "the first result was changed by the second call on the same Grid2DOverSampled"))
+        ctx.watches.append(("held2", held, lambda o: None if qqlist(o) == ptsq2 else "the points held by the Grid2DOverSampled"))
+        return r, ptsq, (r2, ptsq2)
+    return r, ptsq, None
 _IRRSUB = []
 
 def run_one(inp, ctx):
@@ -915,7 +940,7 @@ def run_one(inp, ctx):
     Profile = profile_cls()
     op = inp["op"]; m = env.m; ps, og, psq, ogq, marr = env.ps, env.og, env.psq, env.ogq, env.marr
     ss = inp.get("ss"); ssa = np.array(ss, dtype=int) if ss is not None else None
-    out = None; coq = None; finding = None; nontrivial = True
+    out = None; coq = None; finding = None; nontrivial = True; extra = None
     ex = is_exact(inp.get("ps", ["1", "1"]), ss or [])
     def util_inputs_unchanged():
         if not np.array_equal(marr, np.array(m, dtype=bool)): return "mask array passed to the util function"
@@ -981,9 +1006,13 @@ def run_one(inp, ctx):
         coq = f"KViaFunc {cbool(ex)} {cmask(m)} {cqq(psq)} {cqq(ogq)} {cnats(ss)} {cufun(inp['f'])} {cqs(out)}"
     elif op == "held":
         smp = env.sampler(ss, inp.get("int", False))
-        r, ptsq = call_held(ctx, smp, inp, len(ss), ex)
+        r, ptsq, second = call_held(ctx, smp, inp, len(ss), ex)
         out = qlist(r); ctx.returned("decorated array (Grid2DOverSampled)", r, qlist)
         coq = f"KHeld {cbool(ex)} {cmask(m)} {cnats(ss)} {cqqs(ptsq)} {cufun(inp['f'])} {cqs(out)}"
+        if second is not None:
+            out2 = qlist(second[0]); ctx.returned("decorated array (Grid2DOverSampled, second call)", second[0], qlist)
+            extra = f"(KHeld {cbool(ex)} {cmask(m)} {cnats(ss)} {cqqs(second[1])} {cufun(inp['f'])} {cqs(out2)})"
+            out = [out, out2]
         nontrivial = inp.get("hk") != "uniform"
     elif op in ("decor", "iter"):
         f = inp["f"]; fn = np_ufun(f)
@@ -1030,7 +1059,7 @@ def run_one(inp, ctx):
             coq = f"KDecor {cbool(ex)} {cmask(m)} {cqq(psq)} {cqq(ogq)} {cos_(osq)} {cufun(f)} {cres(out, cqs)}"
     else:
         raise ValueError(op)
-    return {"coq": "(" + coq + ")", "out": jsonable(out), "finding": finding, "nontrivial": nontrivial, "kind": op, "skipped": False}
+    return {"coq": "(" + coq + ")", "out": jsonable(out), "finding": finding, "nontrivial": nontrivial, "kind": op, "skipped": False, "extra": extra}
 
 def run_hsampler(inp, ctx):
     """ONE OverSamplerUniform: cached reads, binning, functions, in-place edits of the sub-size map"""
@@ -1070,8 +1099,11 @@ def run_hsampler(inp, ctx):
                 r = smp.array_via_func_from(func, None if st.get("obj") is None else object())
             o = qlist(r); ctx.returned("array_via_func_from", r, qlist); terms.append(f"CVia {cufun(st['f'])} {cqs(o)}")
         elif do == "held":
-            r, ptsq = call_held(ctx, smp, st, len(cur), ex)
+            r, ptsq, second = call_held(ctx, smp, st, len(cur), ex)
             o = qlist(r); ctx.returned("decorated array (Grid2DOverSampled)", r, qlist); terms.append(f"CHeld {cqqs(ptsq)} {cufun(st['f'])} {cqs(o)}")
+            if second is not None:
+                o2 = qlist(second[0]); ctx.returned("decorated array (Grid2DOverSampled, second call)", second[0], qlist)
+                terms.append(f"CHeld {cqqs(second[1])} {cufun(st['f'])} {cqs(o2)}"); o = [o, o2]
         elif do == "edit":     # the user edits the map in place: sub_size[i] = s
             smp.sub_size[st["i"]] = st["s"]; cur[st["i"]] = st["s"]; o = None
             terms.append(f"CEdit {cnat(st['i'])} {cnat(st['s'])}")
@@ -1116,6 +1148,7 @@ def run_case(inp):
             r = run_one(st, ctx)
             if r["skipped"]: continue
             terms.append(r["coq"]); outs.append(r["out"]); finding = finding or r["finding"]
+            if r.get("extra"): terms.append(r["extra"])
         if not terms: return {"coq": None, "out": None, "py_ok": None, "nontrivial": False, "kind": "seq-skipped-in-band"}
         coq = f"(HSeq {clist(terms)})"; out = outs
         kind = "seq-shared" if inp.get("share") else "seq-fresh"
@@ -1127,7 +1160,8 @@ def run_case(inp):
     else:
         r = run_one(inp, ctx)
         if r["skipped"]: return {"coq": None, "out": None, "py_ok": None, "nontrivial": False, "kind": r["kind"]}
-        coq = f"(HOne {r['coq']})"; out = r["out"]; finding = r["finding"]; nontrivial = r["nontrivial"]
+        coq = f"(HSeq [{r['coq']}; {r['extra']}])" if r.get("extra") else f"(HOne {r['coq']})"
+        out = r["out"]; finding = r["finding"]; nontrivial = r["nontrivial"]
     bad = ctx.problems()
     r = {"coq": coq, "out": out, "py_ok": False if bad else None, "nontrivial": nontrivial, "kind": kind}
     if bad: r["detail"] = "; ".join(bad[:4])
